@@ -137,7 +137,14 @@ export function genRT(rng, d, names) {
     case 8: r = genDisc(rng, d - 1, names); break;
     case 9: r = [A("map"), genRT(rng, 0, names), genRT(rng, d - 1, names)]; break;
     case 10: r = [A("set"), genRT(rng, d - 1, names)]; break;
-    case 11: case 12: r = names.length ? [A("ref"), rng.pick(names)] : genLeaf(rng); break;
+    case 11: r = names.length ? [A("ref"), rng.pick(names)] : genLeaf(rng); break;
+    case 12: { // a union below the root whose deepest-failing branch fails inside a further union
+      const inner = [A("anyof"), genLeaf(rng), genLeaf(rng)];
+      const deep = rng.chance(1, 2) ? [A("object"), [[rng.pick(KEYS), inner]], []] : [A("tuple"), [inner], A("none")];
+      const outer = [A("anyof"), genLeaf(rng), deep];
+      r = rng.pick([[A("array"), outer], [A("tuple"), [genLeaf(rng)], outer], [A("object"), [[rng.pick(KEYS), outer]], []], [A("map"), [A("typeof"), "string"], outer]]);
+      break;
+    }
     default: r = genLeaf(rng);
   }
   if (rng.chance(1, 12)) r = [A("desc"), rng.pick(["doc", "a */ b", "two\nlines"]), r];
@@ -357,8 +364,8 @@ function makeStrictRef(env, validateDefault) {
   function variant(rt, x) {
     if (x === null || typeof x !== "object") return null;
     const d = x[rt[2]];
-    if (d == null) return null;
-    const e = rt[3].find((p) => p[0] === String(d) && (typeof d === "string" || typeof d === "number" || typeof d === "boolean" || typeof d === "bigint" || Array.isArray(d)));
+    if (typeof d !== "string") return null;
+    const e = rt[3].find((p) => p[0] === d);
     return e ? e[1] : null;
   }
   const union = (a, b) => { if (a === "ALL" || b === "ALL") return "ALL"; const s = new Set(a); for (const k of b) s.add(k); return s; };
